@@ -22,18 +22,30 @@ def dim_datatype(mod: Module) -> DatatypeInfo:
         return _cache[key]
     import ast as _ast
 
+    def identity_class(name):
+        """object, or a class of this module that keeps identity comparison (defines no __eq__/__hash__)."""
+        if name == "object":
+            return True
+        try:
+            c = mod.cls(name)
+        except NotFound:
+            return False
+        return not any(isinstance(b, (_ast.FunctionDef,)) and b.name in ("__eq__", "__hash__") for b in c.body)
+
     for s in SENTINELS:
-        # sentinel must still be a module-level `name = object()`
+        # sentinel must still be a module-level singleton compared by identity: `name = object()` / `name = _Sentinel("...")`
         ok = any(
             isinstance(n, _ast.Assign)
             and len(n.targets) == 1
             and getattr(n.targets[0], "id", None) == s
             and isinstance(n.value, _ast.Call)
-            and getattr(n.value.func, "id", None) == "object"
+            and isinstance(n.value.func, _ast.Name)
+            and identity_class(n.value.func.id)
+            and all(isinstance(a, _ast.Constant) for a in n.value.args)
             for n in mod.tree.body
         )
         if not ok:
-            raise NotFound(f"sentinel {s} is not a module-level object()")
+            raise NotFound(f"sentinel {s} is not a module-level identity-compared singleton")
     Dim = z3.Datatype("Dim")
     for s in SENTINELS:
         Dim.declare(s)
